@@ -1027,3 +1027,92 @@ def replay_add(rec):
         if 'fail' in r:
             return r['fail']
     return None
+
+
+# ---- line-comment and docstring puts (edits the property names) on every statement of sources with statements sharing lines -----
+CMT_SRCS = [
+    'if x: a; b\nelse: c; d', 'if x: a\nelif y: b; c\nelse: d; e', 'try: a\nfinally: b; c', 'try: a; b\nexcept E: c; d\nexcept F: pass\nelse: e; f\nfinally: g; h',
+    'for i in j: a; b\nelse: c; d', 'while x: a\nelse: b; c', 'def f(): a; b', 'class C: a; b', 'with x: a; b', 'async def f(): await a; b',
+    'match s:\n    case 1: a; b\n    case _: c', 'a; b; c', 'a; b  # old', 'a  # old\nb', 'if x:\n    a  # old\n    b\nelse:  # e\n    c',
+    'def f():  # h\n    """doc"""\n    a; b  # t', 'class C:\n    def m(self): return 1; x = 2\n    y = 3', 'if x: a; b  # t\nz = 1', 'x = [a,\n     b]; y = 1',
+    'if x:\n    if y: a; b\n    else: c; d\nelse: e; f', 'try:\n    pass\nexcept* E: a; b\nfinally: c; d', 'for é in ü: á = "é"; b\nelse: "é"; d',
+    'x = """m\nl"""; y = 1', 'if x: a; \\\n b', 'with a, \\\n b: c; d', 'def f(a,\n      b): c; d', 'if (x and\n    y): a; b\nelse: c',
+    'lambda: 0\nif x: pass;', 'if x: a;\nelse: b;',
+]
+CMT_TEXTS = [('note', False), ('é # é', False), ('  # full é', True), (None, False), ('#tight', True)]
+DOC_SRCS = [
+    'def f(): pass', 'def f(): a; b', 'def f():\n    """old"""\n    a', 'def f(): """old"""; a', 'class C: pass', 'class C:\n    """old\n    more"""\n    x = 1',
+    'async def f():  # h\n    a', 'x = 1\ny = 2', '"""old"""\nx = 1', 'def f():\n    b"not doc"\n    a', 'class É:\n    é = "é"', 'def f(): "old"',
+    'if 1:\n    def g(): a; b\n    z = 1', 'class C:\n    def m(self): pass\n    def n(self): """d"""', 'def f():\n\n    # c\n    a',
+]
+DOC_TEXTS = ['new', 'two\nlines', 'quote """ inside', "back\\slash and 'q'", 'é ü', '', None, 'trail\n', '  indented\n    more']
+
+
+def cmt_cases():
+    return [('l', i) for i in range(len(CMT_SRCS))] + [('d', i) for i in range(len(DOC_SRCS))]
+
+
+def run_cmt_case(case, only=None):
+    from fst import FST
+    res = []
+    kind, i = case[0], case[1]
+    src0 = (CMT_SRCS if kind == 'l' else DOC_SRCS)[i]
+    for var in ('ascii', 'nest'):
+        src = src0 if var == 'ascii' else 'if 1:\n' + '\n'.join('    ' + l for l in src0.split('\n')) + '\nelse:\n    pass'
+        if var == 'nest' and ('"""' in src0 and '\n' in src0.split('"""')[1] if '"""' in src0 else False):
+            continue            # indenting would change a multi-line string
+        try:
+            root0 = FST(src, 'exec')
+        except Exception as e:
+            res.append({'case': list(case), 'setup_error': repr(e)[:120]})
+            continue
+        nodes = [k for k, f in enumerate(root0.walk(True)) if isinstance(f.a, (ast.stmt, ast.Module) if kind == 'd' else ast.stmt)
+                 and (kind == 'l' or isinstance(f.a, (ast.FunctionDef, ast.AsyncFunctionDef, ast.ClassDef, ast.Module)))]
+        for k in nodes:
+            if kind == 'l':
+                is_block = hasattr(list(root0.walk(True))[k].a, 'body')
+                fields = [None] + ([f for f in ('orelse', 'finalbody') if getattr(list(root0.walk(True))[k].a, f, None)] if is_block else [])
+                steps_list = [(t, fld) for t in CMT_TEXTS for fld in fields]
+            else:
+                steps_list = [(t, rp) for t in DOC_TEXTS for rp in (False, True)]
+            for si, step in enumerate(steps_list):
+                for second in (False, True):
+                    if only and (var, k, si, second) != only:
+                        continue
+                    root = FST(src, 'exec')
+                    node = list(root.walk(True))[k]
+                    rec = {'case': list(case), 'src': src, 'cls': node.a.__class__.__name__, 'var': var, 'node': k, 'si': si, 'second': second,
+                           'op': ('put_line_comment' if kind == 'l' else 'put_docstr') + repr(step) + ('+again' if second else '')}
+                    try:
+                        for rep in range(2 if second else 1):
+                            with FST.options(norm=True):
+                                if kind == 'l':
+                                    (text, full), fld = step
+                                    text2 = text if rep == 0 or text is None else (text + '2' if not full else text + ' 2')
+                                    node.put_line_comment(text2, fld, full) if fld else node.put_line_comment(text2, full=full)
+                                else:
+                                    text, rp = step
+                                    node.put_docstr(text if rep == 0 or text is None else text + ' again', rp)
+                            d = _judge(root)
+                            if d:
+                                rec['fail'] = d
+                                rec['step'] = rep
+                                break
+                    except Exception as e:
+                        rec['raised'] = type(e).__name__
+                    rec['after'] = root.src
+                    res.append(rec)
+    return res
+
+
+def cmt_signature(rec):
+    cls = 'no-parse' if rec['fail'].startswith('source no longer parses') else ('structure' if rec['fail'].startswith('structure') else 'positions')
+    api = 'put_line_comment' if rec['case'][0] == 'l' else 'put_docstr'
+    return f"C01|{api}|{rec['cls']}|{rec['case'][1]}{rec['var'][0]}.{rec['node']}.{rec['si']}{'+' if rec['second'] else ''}|{cls}"
+
+
+def replay_cmt(rec):
+    for r in run_cmt_case(tuple(rec['case']), only=(rec['var'], rec['node'], rec['si'], rec['second'])):
+        if 'fail' in r:
+            return r['fail']
+    return None
